@@ -7,6 +7,11 @@ Re-reads on every run, from the current source tree,
   * communication.hh: the body of every collective of the sequential stand-in `Communication<No_Comm>` (primary
     template), translated statement by statement into the loop shape `DV.C07.Seq.forCopy`, the constants returned by
     `rank()`, `size()`, `barrier()` and which point-to-point methods throw `ParallelError`,
+  * R4: mpitraits.hh / plocalindex.hh / remoteindices.hh: the construction block of every `MPITraits<...>::getType()` with state,
+    executed symbolically (declarations, MPI_Get_address pairs / offsetof, MPI_Type_contiguous / create_struct / create_resized /
+    commit / free) into the expression the returned handle denotes (`Gen.TyProg.*`),
+  * R4: mpicommunication.hh: every member function body of `Communication<MPI_Comm>`, executed symbolically (MPIData / MPIFuture
+    views, local ints, the one MPI call or delegation) into the MPI call it issues (`Gen.wrapperTable`),
 and writes them to lean/DuneVerif/Gen/C07.lean.  Props/C07.lean proves that the tables agree with what the MPI
 standard says about the handles (`Model.mpiCType`, `Model.mpiOpFunctor`), that user ops are not declared commutative,
 and that every generated stand-in body is the model's `Seq.*` function (about which the `seq_eq_oneproc_*` theorems
